@@ -11,7 +11,7 @@ From NGF Require Import ngx.Lexer.
 Import ListNotations.
 Local Open Scope char_scope.
 
-Inductive sym := SC (c : ascii) | SH (id : nat) | SQ (id : nat).
+Inductive sym := SC (c : ascii) | SH (id : nat) | SQ (id : nat) | SB (id : nat) | SD (id : nat).
 
 (* characters that never end or start anything in a bare token, a quoted token or a comment *)
 Definition plain (c : ascii) : bool :=
@@ -24,6 +24,58 @@ Definition qplain (c : ascii) : bool :=
 
 Definition all_plain (s : chars) : bool := forallb plain s.
 Definition all_qplain (s : chars) : bool := forallb qplain s.
+
+(* ---------------------------------------------------------------- classes defined by the tokenizer itself
+
+   [absorb_bare e v s]: inside an unquoted token with flags (e, v), every character of s is absorbed into the token
+   (no token ends, nothing is emitted); the result is the flags afterwards. [absorb_quote q e v s]: the same inside a
+   token quoted by q. A bare-safe hole (SB) is a non-empty string whose first character may start an unquoted token
+   and that is absorbed from flags (false, false) back to (false, false); a double-quote-safe hole (SD) is a string
+   absorbed inside a double-quoted token from (false, false) back to (false, false) - it may contain escaped quotes. *)
+Definition bare_flags (e v : bool) (c : ascii) : option (bool * bool) :=
+  if e then Some (false, false)
+  else if aeqb c "{" && v then Some (false, false)
+  else if aeqb c "\" then Some (true, false)
+  else if aeqb c "$" then Some (false, true)
+  else if is_ws c then None
+  else if aeqb c ";" then None
+  else if aeqb c "{" then None
+  else Some (false, false).
+
+Fixpoint absorb_bare (e v : bool) (s : chars) : option (bool * bool) :=
+  match s with
+  | [] => Some (e, v)
+  | c :: s' => match bare_flags e v c with Some (e1, v1) => absorb_bare e1 v1 s' | None => None end
+  end.
+
+Definition quote_flags (q : ascii) (e v : bool) (c : ascii) : option (bool * bool) :=
+  if e then Some (false, false)
+  else if aeqb c "{" && v then Some (false, false)
+  else if aeqb c "\" then Some (true, false)
+  else if aeqb c "$" then Some (false, true)
+  else if aeqb c q then None
+  else Some (false, false).
+
+Fixpoint absorb_quote (q : ascii) (e v : bool) (s : chars) : option (bool * bool) :=
+  match s with
+  | [] => Some (e, v)
+  | c :: s' => match quote_flags q e v c with Some (e1, v1) => absorb_quote q e1 v1 s' | None => None end
+  end.
+
+(* characters that start an unquoted token at a token boundary exactly as they continue one *)
+Definition start_char_ok (c : ascii) : bool :=
+  negb (is_ws c || aeqb c ";" || aeqb c "{" || aeqb c "}" || aeqb c "#" || aeqb c """" || aeqb c "'").
+
+Definition flags_down (r : option (bool * bool)) : bool :=
+  match r with Some (false, false) => true | _ => false end.
+
+Definition bare_ok (s : chars) : bool :=
+  match s with
+  | [] => false
+  | c :: _ => start_char_ok c && flags_down (absorb_bare false false s)
+  end.
+
+Definition dq_ok (s : chars) : bool := flags_down (absorb_quote """" false false s).
 
 Definition is_quote (q : ascii) : bool := aeqb q """" || aeqb q "'".
 
@@ -92,6 +144,17 @@ Definition slstep (s : slst) (x : sym) : slres :=
       | SLQuote q acc false false => if is_quote q then SOk (SLQuote q (x :: acc) false false) [] else SUnsupported
       | _ => SUnsupported
       end
+  | SB _ =>
+      match s with
+      | SLStart => SOk (SLBare [x] false false) []
+      | SLBare acc false false => SOk (SLBare (x :: acc) false false) []
+      | _ => SUnsupported
+      end
+  | SD _ =>
+      match s with
+      | SLQuote q acc false false => if aeqb q """" then SOk (SLQuote q (x :: acc) false false) [] else SUnsupported
+      | _ => SUnsupported
+      end
   end.
 
 Inductive slrun_res := RDone (s : slst) (out : list stok) | RErr | RUnsupported.
@@ -117,7 +180,7 @@ Section Inst.
   Variable sg : nat -> chars.
 
   Definition inst_sym (x : sym) : chars :=
-    match x with SC c => [c] | SH id => sg id | SQ id => sg id end.
+    match x with SC c => [c] | SH id | SQ id | SB id | SD id => sg id end.
 
   Definition expand (xs : list sym) : chars := flat_map inst_sym xs.
 
@@ -145,6 +208,8 @@ Section Inst.
     | SC _ => true
     | SH id => match sg id with [] => false | _ => all_plain (sg id) end
     | SQ id => all_qplain (sg id)
+    | SB id => bare_ok (sg id)
+    | SD id => dq_ok (sg id)
     end.
 End Inst.
 
